@@ -49,8 +49,25 @@ class MonEnd(ChanEnd):
         self.on_wait = None  # callable, invoked (pipe lock held) each time recv() is about to park
         self.nrecv = 0  # recv() calls that returned data (progress counter)
         self.after_send = None  # callable(data) run in the sender's thread after each send()
+        self.send_waiting = False  # a sender is parked on a full (bounded) pipe; touched with self._wr.cv held
+        self.send_blocks = 0
 
     def send(self, data):
+        cap = getattr(self.wire, "d2_capacity", None)
+        if cap is not None:
+            # bounded pipe (flow-control back-pressure, like an exhausted channel window): block while the peer has
+            # `cap` unread bytes, then hand over at most the free room (callers loop, as with Channel.send)
+            d = self._wr
+            with d.cv:
+                while len(d.buf) >= cap and not (d.closed or self.closed):
+                    self.send_waiting = True
+                    self.send_blocks += 1
+                    try:
+                        d.cv.wait(1.0)
+                    finally:
+                        self.send_waiting = False
+                room = max(1, cap - len(d.buf))
+            data = bytes(data[:room])
         n = super().send(data)
         hook = self.after_send
         if hook is not None:
@@ -85,6 +102,7 @@ class MonEnd(ChanEnd):
             out = bytes(d.buf[:k])
             del d.buf[:k]
             self.nrecv += 1
+            d.cv.notify_all()  # room for a sender parked on a bounded pipe
             return out
 
 
@@ -112,6 +130,7 @@ class Monitor:
         # methods: handle close/read/write/stat/chattr, interface "si.<method>"
         self.faults = {}
         self.faults_raised = 0
+        self.before_read = None  # callable run before each handle read (e.g. "server slow on the first read")
 
     def fault(self, method):
         f = self.faults.get(method)
@@ -182,6 +201,8 @@ class ReadLogHandle(BenchHandle):
     def read(self, offset, length):
         self._fault("read")
         mon = self.si.kw.get("mon")
+        if mon is not None and mon.before_read is not None:
+            mon.before_read()
         want = length
         if mon is not None and mon.short is not None and length > 0:
             want = max(1, min(length, mon.short(length)))
@@ -265,6 +286,14 @@ class MonBench(Bench):
         d = self.wire.c2s
         with d.cv:
             return self.wire.server_end.waiting and not d.buf
+
+    def server_parked(self):
+        """Server thread cannot move by itself: idle (nothing to read) or parked in send() on a full bounded pipe."""
+        if self.server_idle():
+            return True
+        d = self.wire.s2c
+        with d.cv:
+            return self.wire.server_end.send_waiting and len(d.buf) >= (getattr(self.wire, "d2_capacity", None) or 1 << 62)
 
     def client_idle(self):
         d = self.wire.s2c
